@@ -647,7 +647,7 @@ def run(chk: Check) -> None:
         except Exception as ex:  # noqa: BLE001
             rt_fail("etags-normal-form", f"re-serialising parse_etags(h) raised {ex!r}", {"header": h})
         C.add(f"uqetag {cps(h)}", lambda: (lambda r: "~" if r[0] is None else cps(r[0]) + ";" + str(int(r[1])))(H.unquote_etag(h)))
-    for v in [gen_value(rng) for _ in range(n // 2)]:
+    for v in corpus["if_range_etags"] + [gen_value(rng) for _ in range(n // 2)]:
         C.add(f"qetag {cps(v)} 0", lambda: "ok " + cps(H.quote_etag(v)))
         if '"' not in v and v == v.strip() and v and not v.lower().startswith("w/"):
             # If-Range with an entity tag (domain: what quote_etag accepts, read back by unquote_etag)
@@ -656,7 +656,10 @@ def run(chk: Check) -> None:
                 ok = b.etag == v and b.date is None
             except Exception as ex:  # noqa: BLE001
                 b, ok = repr(ex), False
-            if not ok and H.parse_date('"' + v + '"') is None:
+            if not ok and H.parse_date('"' + v + '"') is not None:
+                rt_fail("if-range-date-like-etag", f"IfRange(etag={v!r}).to_header() = {ds.IfRange(v).to_header()!r} is read back as a date "
+                        f"({getattr(b, 'date', b)!r}), not as the entity tag", {"etag": v})
+            elif not ok:
                 rt_fail("if-range-roundtrip", f"parse_if_range_header(IfRange(etag).to_header()).etag = {getattr(b, 'etag', b)!r}", {"etag": v})
 
     # ------------------------------------------------------------ Range / Content-Range
